@@ -106,7 +106,16 @@ Definition step_spec (c : cfgT) (w : wobs) (v : sview) : bool :=
       | CRename a n, ROk => rename_exact c f f' a n
       | CRebase a b0, ROk => rebase_exact c f f' a b0
       | _, _ => true
-      end).
+      end)
+  (* the installation can always be listed: a plain listing command (CProbe: what `layercake list`
+     and `status` run, FindLayers + ProbeAllLayerstate) succeeds.  Preconditions, each because the
+     code refuses otherwise: base_set_up -- every command starts with CheckBaseSetUp (base, layers,
+     exports directories and the skeleton file); forest_ok -- FindLayers ends with checkInheritance
+     and fails on a layer whose base chain is broken or cyclic.  Nothing is asked of the kernel
+     table: ProbeMounts parses every table the kernel renders (C02_probe_total).  Names outside the
+     modelled bytes are excluded by LC.wf for the whole case, not here. *)
+  && (negb (plain && forest_ok c f && base_set_up c f)
+      || match v_cmd v with CProbe => rclass_beq (v_res v) ROk | _ => true end).
 
 Definition spec (c : case) (steps : list step) : bool := along_views (step_spec (c_cfg c)) (w0 c) steps.
 Definition wf := LC.wf.
